@@ -14,6 +14,7 @@ package c20
 
 import (
 	"fmt"
+	"net"
 	"os"
 	"regexp"
 	"sort"
@@ -174,10 +175,10 @@ type reject struct {
 type histCase struct {
 	Clients   int      `json:"clients"`
 	Capacity  int      `json:"capacity"`
-	Backend8  bool     `json:"backend8"`            // backend announces 8.0.x (tx_read_only is sent as transaction_read_only)
-	Handshake []int    `json:"handshake"`           // per client: index into handshakeColls
-	TxAlias   []bool   `json:"tx_alias"`            // per client: says transaction_read_only instead of tx_read_only
-	Rejects   []reject `json:"rejects,omitempty"`   // (variable, value) pairs the backend refuses
+	Backend8  bool     `json:"backend8"`          // backend announces 8.0.x (tx_read_only is sent as transaction_read_only)
+	Handshake []int    `json:"handshake"`         // per client: index into handshakeColls
+	TxAlias   []bool   `json:"tx_alias"`          // per client: says transaction_read_only instead of tx_read_only
+	Rejects   []reject `json:"rejects,omitempty"` // (variable, value) pairs the backend refuses
 	Ops       []op     `json:"ops"`
 }
 
@@ -467,6 +468,17 @@ func isSessionSet(sql string) bool {
 	return true
 }
 
+// abortClose ends a client session with a connection reset: no socket is left in TIME_WAIT.
+func abortClose(c *rawclient.Conn) {
+	if c == nil {
+		return
+	}
+	if tc, ok := c.NetConn().(*net.TCPConn); ok {
+		tc.SetLinger(0)
+	}
+	c.Close()
+}
+
 // ---------------------------------------------------------------- check
 
 const (
@@ -548,6 +560,9 @@ func checkCase(c histCase) (o pbt.Outcome) {
 		return
 	}
 	defer p.Remove(nsName)
+	// the backends go first, with a connection reset, so that neither the proxy's pooled
+	// connections nor the server side stay in TIME_WAIT (thousands of cases per minute)
+	defer cl.Abort()
 
 	conns := make([]*rawclient.Conn, c.Clients)
 	model := make([]settings, c.Clients)
@@ -559,9 +574,7 @@ func checkCase(c histCase) (o pbt.Outcome) {
 		cc, err := rawclient.Dial(p.Addr, rawclient.Options{User: users[i].UserName, Password: "pw", DB: "db", Collation: h.ID, Timeout: 15 * time.Second})
 		if err != nil {
 			for _, x := range conns {
-				if x != nil {
-					x.Close()
-				}
+				abortClose(x)
 			}
 			o.Skip = "fixture dial: " + err.Error()
 			return
@@ -571,9 +584,7 @@ func checkCase(c histCase) (o pbt.Outcome) {
 	}
 	defer func() {
 		for _, x := range conns {
-			if x != nil {
-				x.Close()
-			}
+			abortClose(x)
 		}
 	}()
 
@@ -754,10 +765,8 @@ func checkCase(c histCase) (o pbt.Outcome) {
 		}
 	}
 	for i, x := range conns {
-		if x != nil {
-			x.Quit()
-			conns[i] = nil
-		}
+		abortClose(x)
+		conns[i] = nil
 	}
 
 	// ---- oracle over the backend's log
@@ -1021,6 +1030,6 @@ func checkCase(c histCase) (o pbt.Outcome) {
 
 func TestC20SessionSettings(t *testing.T) {
 	pbt.Run(t, pbt.Spec{ID: "C20", Sub: "history", Quick: 400, Thorough: 3000,
-		Rule: "2-4 clients (own handshake collation, tx_read_only alias), master pool capacity 1-2, backend 5.7 or 8.0, 0-3 (variable,value)/charset pairs the backend refuses, 6-40 statements: SET of every accepted session variable in six syntactic forms (1-3 assignments), SET NAMES [COLLATE], user variables, = DEFAULT / = NULL, literals the proxy must refuse, begin/commit/rollback, tagged queries; non-trivial = two clients with different settings follow each other on one backend connection, or a connection is used again after the backend refused a SET on it, and at least one successful statement was compared",
+		Rule:  "2-4 clients (own handshake collation, own spelling of tx_read_only/transaction_read_only), master pool capacity 1-2, backend 5.7 or 8.0, 0-3 (variable,value)/charset pairs the backend refuses, 6-40 statements: SET of every accepted session variable in six syntactic forms (1-3 assignments, half of the cases concentrated on 1-4 variables), SET NAMES [COLLATE], user variables, = DEFAULT / = NULL, literals the proxy must refuse, begin/commit/rollback, tagged queries (text, prepared, update); non-trivial = two clients with different settings follow each other on one backend connection, or a connection is used again after the backend refused a SET on it, and at least one successful statement was compared",
 		Floor: 0.4}, genCase, checkCase)
 }
